@@ -865,7 +865,7 @@ theorem translate_built {env : Env} {t : Tree} {look : Path → Option Module} {
       infos env t look (kidNodes env look (docSpace env t look base f.imports).1 f) = some kids ∧
       infos env t look [(f.root, rootCls)] = some [root] ∧
       o.customs = customWidgets env look (nodesOf env look (docSpace env t look base f.imports).1 f rootCls) ∧
-      o.widgets = widgetOf root :: kids.map widgetOf ∧
+      o.widgets = widgetOf root :: kids.map kidWidgetOf ∧
       (o.diags = [] → classDiag true root = [] ∧ ∀ k ∈ kids, classDiag false k = []) := by
   unfold translate at h
   simp only at h
@@ -958,11 +958,52 @@ theorem derivesWidget_super_ok {env : Env} {look : Path → Option Module} {n : 
     · rename_i q hq; exact ⟨_, hq⟩
     · rename_i d' c' hq; exact ⟨_, hq⟩
 
-theorem classDiag_nil {isRoot : Bool} {n : NodeInfo} (h : classDiag isRoot n = []) : derivesWidget n.bases = true := by
-  unfold classDiag at h
-  split at h
-  · assumption
-  · cases h
+theorem derivesWidget_eq_derivesQt : ∀ l : List BaseItem, derivesWidget l = derivesQt (·.isWidget) l
+  | [] => rfl
+  | .err _ :: _ => rfl
+  | .cls (.qt _) :: _ => rfl
+  | .cls (.comp _ _) :: rest => by simp only [derivesWidget, derivesQt]; exact derivesWidget_eq_derivesQt rest
+
+/-- a component that derives from a Qt class with some trait has a super class that resolves -/
+theorem derivesQt_super_ok {env : Env} {look : Path → Option Module} {sel : QtClass → Bool} {n : Nat}
+    {v : List (Path × CompData)} {c : CompData} {l : List BaseItem} (h : baseClasses env look n v c = some l)
+    (hw : derivesQt sel l = true) : ∃ s, superClass env look c = .ok s := by
+  cases n with
+  | zero => simp [baseClasses] at h
+  | succ n =>
+    unfold baseClasses at h
+    split at h
+    · cases h; simp [derivesQt] at hw
+    · rename_i q hq; exact ⟨_, hq⟩
+    · rename_i d' c' hq; exact ⟨_, hq⟩
+
+/-- what the class test of the form lets through: the root must be a widget, a child a widget, a layout or an action -/
+def passesClass (isRoot : Bool) (l : List BaseItem) : Bool :=
+  if isRoot then derivesWidget l else (derivesAction l || derivesLayout l || derivesWidget l)
+
+theorem classDiag_nil_iff {isRoot : Bool} {n : NodeInfo} : classDiag isRoot n = [] ↔ passesClass isRoot n.bases = true := by
+  unfold classDiag passesClass
+  cases isRoot
+  · simp only [Bool.false_eq_true, if_false]
+    split <;> simp_all
+  · simp only [if_true]
+    split <;> simp_all
+
+theorem classDiag_nil {isRoot : Bool} {n : NodeInfo} (h : classDiag isRoot n = []) : passesClass isRoot n.bases = true :=
+  classDiag_nil_iff.1 h
+
+theorem passesClass_super_ok {env : Env} {look : Path → Option Module} {isRoot : Bool} {n : Nat}
+    {v : List (Path × CompData)} {c : CompData} {l : List BaseItem} (h : baseClasses env look n v c = some l)
+    (hw : passesClass isRoot l = true) : ∃ s, superClass env look c = .ok s := by
+  unfold passesClass at hw
+  cases isRoot
+  · simp only [Bool.false_eq_true, if_false, Bool.or_eq_true] at hw
+    rcases hw with (hw | hw) | hw
+    · exact derivesQt_super_ok h (by simpa [derivesAction] using hw)
+    · exact derivesQt_super_ok h (by simpa [derivesLayout] using hw)
+    · exact derivesWidget_super_ok h hw
+  · simp only [if_true] at hw
+    exact derivesWidget_super_ok h hw
 
 /-! ### instances accept the properties of the base class -/
 
@@ -1085,6 +1126,195 @@ theorem reaches_basesOf {env : Env} {t : Tree} {look : Path → Option Module} (
   have := baseClasses_mono (fileCount t + 1) (k + 1) [] c l hl
   rw [this] at hl'; cases hl'
   exact ⟨l, hl, hp, hw⟩
+
+/-- as `reaches_baseClasses`, for any measured trait of the Qt class the chain ends in (layout, action, …) -/
+theorem reaches_baseClasses_sel {env : Env} {look : Path → Option Module} {sel : QtClass → Bool} {k : Nat} {c : CompData}
+    {q : QtClass} (h : ReachesQt env look k c q) : ∀ (n : Nat) (v : List (Path × CompData)), k < n →
+    (∀ x ∈ v, ∀ j q', ReachesQt env look j x.2 q' → k ≤ j) →
+    ∃ l, baseClasses env look n v c = some l ∧ derivesQt sel l = sel q := by
+  induction h with
+  | base h1 =>
+    intro n v hn _
+    cases n with
+    | zero => omega
+    | succ n =>
+      refine ⟨[.cls (.qt _)], ?_, rfl⟩
+      unfold baseClasses; rw [h1]
+  | @step c d c' k q h1 h2 ih =>
+    intro n v hn hv
+    cases n with
+    | zero => omega
+    | succ n =>
+      have hnot : (d, c') ∉ v := by
+        intro hmem
+        have := hv _ hmem k q h2
+        omega
+      obtain ⟨l, hl, hw⟩ := ih n ((d, c') :: v) (by omega) (by
+        intro x hx j q' hj
+        rcases List.mem_cons.1 hx with hx | hx
+        · subst hx
+          have := (h2.det hj).1
+          omega
+        · have := hv x hx j q' hj
+          omega)
+      refine ⟨.cls (.comp d c') :: l, ?_, by simpa [derivesQt] using hw⟩
+      unfold baseClasses; rw [h1]
+      simp only
+      rw [if_neg hnot, hl]; rfl
+
+theorem reaches_basesOf_sel {env : Env} {t : Tree} {look : Path → Option Module} (hs : SoundLook t look)
+    {sel : QtClass → Bool} {k : Nat} {c : CompData} {q : QtClass} (h : ReachesQt env look k c q) :
+    ∃ l, basesOf env t look c = some l ∧ derivesQt sel l = sel q := by
+  obtain ⟨l, hl⟩ := Option.isSome_iff_exists.1 (basesOf_isSome (env := env) hs c)
+  obtain ⟨l', hl', hw⟩ := reaches_baseClasses_sel (sel := sel) h (fileCount t + 1 + (k + 1)) [] (by omega) (by simp)
+  have := baseClasses_mono (fileCount t + 1) (k + 1) [] c l hl
+  rw [this] at hl'; cases hl'
+  exact ⟨l, hl, hw⟩
+
+/-! ### chains that never leave the components (cycles) -/
+
+/-- the component a component's root type resolves to (`none`: a Qt class, or nothing at all) -/
+def superComp (env : Env) (look : Path → Option Module) (c : CompData) : Option (Path × CompData) :=
+  match superClass env look c with
+  | .ok (.comp d c') => some (d, c')
+  | _ => none
+
+/-- the component reached from `c` after `k + 1` steps along root types -/
+def chainAt (env : Env) (look : Path → Option Module) : Nat → CompData → Option (Path × CompData)
+  | 0, c => superComp env look c
+  | k + 1, c => (superComp env look c).bind fun x => chainAt env look k x.2
+
+theorem chainAt_add {env : Env} {look : Path → Option Module} : ∀ (a b : Nat) (c : CompData),
+    chainAt env look (a + 1 + b) c = (chainAt env look a c).bind fun x => chainAt env look b x.2 := by
+  intro a
+  induction a with
+  | zero =>
+    intro b c
+    have : 0 + 1 + b = b + 1 := by omega
+    rw [this]; rfl
+  | succ a ih =>
+    intro b c
+    have : a + 1 + 1 + b = (a + 1 + b) + 1 := by omega
+    rw [this]
+    simp only [chainAt]
+    cases superComp env look c with
+    | none => rfl
+    | some x => simp only [Option.bind_some]; exact ih b x.2
+
+theorem chainAt_prefix {env : Env} {look : Path → Option Module} {a b : Nat} {c : CompData}
+    (h : (chainAt env look (a + 1 + b) c).isSome = true) : (chainAt env look a c).isSome = true := by
+  rw [chainAt_add] at h
+  cases hc : chainAt env look a c with
+  | none => rw [hc] at h; simp at h
+  | some x => rfl
+
+/-- a chain of root types that comes back to a component it has passed goes on for ever -/
+theorem chainAt_forever {env : Env} {look : Path → Option Module} {i j : Nat} {c : CompData} {x : Path × CompData}
+    (hij : i < j) (hi : chainAt env look i c = some x) (hj : chainAt env look j c = some x) :
+    ∀ k, (chainAt env look k c).isSome = true := by
+  obtain ⟨b, rfl⟩ : ∃ b, j = i + 1 + b := ⟨j - i - 1, by omega⟩
+  have hloop : chainAt env look b x.2 = some x := by
+    rw [chainAt_add, hi] at hj; exact hj
+  have hx : ∀ m, (chainAt env look m x.2).isSome = true := by
+    intro m
+    induction m using Nat.strongRecOn with
+    | _ m ih =>
+      rcases Nat.lt_trichotomy m b with hlt | heq | hgt
+      · obtain ⟨b', rfl⟩ : ∃ b', b = m + 1 + b' := ⟨b - m - 1, by omega⟩
+        exact chainAt_prefix (by rw [hloop]; rfl)
+      · subst heq; rw [hloop]; rfl
+      · obtain ⟨m', rfl⟩ : ∃ m', m = b + 1 + m' := ⟨m - b - 1, by omega⟩
+        rw [chainAt_add, hloop]
+        exact ih m' (by omega)
+  intro k
+  rcases Nat.lt_trichotomy k i with hlt | heq | hgt
+  · obtain ⟨b', rfl⟩ : ∃ b', i = k + 1 + b' := ⟨i - k - 1, by omega⟩
+    exact chainAt_prefix (by rw [hi]; rfl)
+  · subst heq; rw [hi]; rfl
+  · obtain ⟨k', rfl⟩ : ∃ k', k = i + 1 + k' := ⟨k - i - 1, by omega⟩
+    rw [chainAt_add, hi]
+    exact hx k'
+
+/-- a base list made of components only -/
+def AllComp (l : List BaseItem) : Prop := ∀ b ∈ l, ∃ d c, b = .cls (.comp d c)
+
+theorem baseClasses_forever {env : Env} {look : Path → Option Module} : ∀ (n : Nat) (v : List (Path × CompData))
+    (c : CompData) (l : List BaseItem), (∀ k, (chainAt env look k c).isSome = true) →
+    baseClasses env look n v c = some l → AllComp l := by
+  intro n
+  induction n with
+  | zero => intro v c l _ h; simp [baseClasses] at h
+  | succ n ih =>
+    intro v c l hk h
+    have h0 := hk 0
+    unfold baseClasses at h
+    split at h
+    · rename_i e he
+      simp [chainAt, superComp, he] at h0
+    · rename_i q hq
+      simp [chainAt, superComp, hq] at h0
+    · rename_i d' c' hq
+      split at h
+      · cases h; intro b hb; cases hb
+      · cases hr : baseClasses env look n ((d', c') :: v) c' with
+        | none => rw [hr] at h; cases h
+        | some l' =>
+          rw [hr] at h; cases h
+          have hk' : ∀ k, (chainAt env look k c').isSome = true := by
+            intro k
+            have := hk (k + 1)
+            simpa [chainAt, superComp, hq] using this
+          have := ih _ _ _ hk' hr
+          intro b hb
+          rcases List.mem_cons.1 hb with hb | hb
+          · exact ⟨d', c', hb⟩
+          · exact this b hb
+
+theorem allComp_lookups {l : List BaseItem} (h : AllComp l) (sel : QtClass → Bool) (p : String) :
+    derivesQt sel l = false ∧ derivesWidget l = false ∧ propIn p l = .unknown := by
+  induction l with
+  | nil => exact ⟨rfl, rfl, rfl⟩
+  | cons b rest ih =>
+    obtain ⟨d, c, rfl⟩ := h b List.mem_cons_self
+    have := ih (fun x hx => h x (List.mem_cons_of_mem _ hx))
+    simpa [derivesQt, derivesWidget, propIn] using this
+
+/-! ### the class a name resolves to bears that name -/
+
+theorem lookupRev_name {env : Env} {look : Path → Option Module} {name : String} {s : Cls} :
+    ∀ {ids : List ModuleId}, lookupRev env look ids name = .ok s → s.name = name := by
+  intro ids
+  induction ids with
+  | nil => intro h; simp [lookupRev] at h
+  | cons id rest ih =>
+    intro h
+    unfold lookupRev at h
+    split at h
+    · exact ih h
+    · split at h
+      · split at h
+        · rename_i q hq
+          cases h
+          have := List.find?_some hq
+          simpa [Cls.name] using this
+        · exact ih h
+      · cases h
+    · split at h
+      · cases h
+      · rename_i p' m hm
+        split at h
+        · rename_i c' hc
+          cases h
+          exact (findComp_some hc).2
+        · exact ih h
+
+theorem superClass_name {env : Env} {look : Path → Option Module} {c : CompData} {s : Cls}
+    (h : superClass env look c = .ok s) : s.name = c.super := by
+  unfold superClass at h
+  split at h
+  · cases h
+  · cases h
+  · rename_i s' hs; cases h; exact lookupRev_name hs
 
 /-! ### every directory is inserted once -/
 
